@@ -1,71 +1,251 @@
-(* C01 — cmd/keymasterd/certgen.go certGenHandler decision, on top of check_auth *)
+(* C01 / C02 — cmd/keymasterd/certgen.go certGenHandler (decision and the certificate it has
+   lib/certgen build), on top of Auth.check_auth.
+
+   Subjects inside credentials are numbers (Auth.v); the server state carries s_name, the name
+   string a subject number stands for, so that the handler's string comparison of the
+   authenticated name with the raw URL segment, and everything written into the certificate,
+   are about byte strings.  Parsers (multipart, duration, key formats, shell expansion, the
+   directory's group lookup) run in front of the model and enter as inputs. *)
 From Coq Require Import ZArith.
 From KM Require Import Base.Bytes Model.Auth.
 Open Scope N_scope.
 
-(* the acceptable-methods setting: the strings of lib/webapi/v0/proto/api.go *)
-Inductive method := MPassword | MFederated | MU2F | MVIP | MIPCert | MTOTP | MOkta | MBootstrap | MCLI | MUnknown.
+(* ---- the strings of lib/webapi/v0/proto/api.go (Obl_C01 re-proves them equal to the
+   constants compiled from the current tree) *)
+Definition sPassword : bs := [112;97;115;115;119;111;114;100].   (* "password" *)
+Definition sFederated : bs := [102;101;100;101;114;97;116;101;100].   (* "federated" *)
+Definition sU2F : bs := [85;50;70].   (* "U2F" *)
+Definition sVIP : bs := [83;121;109;97;110;116;101;99;86;73;80].   (* "SymantecVIP" *)
+Definition sIPCert : bs := [73;80;67;101;114;116;105;102;105;99;97;116;101].   (* "IPCertificate" *)
+Definition sTOTP : bs := [84;79;84;80].   (* "TOTP" *)
+Definition sOkta : bs := [79;107;116;97;50;70;65].   (* "Okta2FA" *)
+Definition sBootstrap : bs := [66;111;111;116;115;116;114;97;112;79;84;80].   (* "BootstrapOTP" *)
+Definition sCLI : bs := [87;101;98;97;117;116;104;70;111;114;67;76;73].   (* "WebauthForCLI" *)
 
-(* one turn of the sufficientAuthLevel loop *)
-Definition method_ok (level : N) (m : method) : bool :=
-  match m with
-  | MPassword => true
-  | MU2F => hasb level bU2F
-  | MTOTP => hasb level bTOTP
-  | MVIP => hasb level bVIP
-  | MIPCert => hasb level bIPCert
-  | MOkta => hasb level bOkta
-  | MCLI => hasb level bCLI
-  | MFederated | MBootstrap | MUnknown => false
-  end.
-Definition sufficient (cfg : list method) (level : N) : bool :=
-  existsb (method_ok level) cfg || hasb level bU2F.
+(* (authData.AuthType & X) == X, as certGenHandler writes its tests *)
+Definition has_all (level mask : N) : bool := N.land level mask =? mask.
 
-Inductive certtype := TSsh | TX509 | TKube | TBogus.
+(* ---- the sufficientAuthLevel loop, one turn: the seven `if` statements in source order *)
+Definition loop_turn (level : N) (flag : bool) (pref : bs) : bool :=
+  let flag := if bs_eqb pref sPassword then true else flag in
+  let flag := if bs_eqb pref sU2F && has_all level bU2F then true else flag in
+  let flag := if bs_eqb pref sTOTP && has_all level bTOTP then true else flag in
+  let flag := if bs_eqb pref sVIP && has_all level bVIP then true else flag in
+  let flag := if bs_eqb pref sIPCert && has_all level bIPCert then true else flag in
+  let flag := if bs_eqb pref sOkta && has_all level bOkta then true else flag in
+  let flag := if bs_eqb pref sCLI && has_all level bCLI then true else flag in
+  flag.
+
+(* the loop, then "if you have u2f you can always get the cert" *)
+Definition sufficient (cfg : list bs) (level : N) : bool :=
+  let flag := fold_left (loop_turn level) cfg false in
+  if has_all level bU2F then true else flag.
+
+(* ---- requests *)
+Inductive hmethod := HGet | HPost | HOther.
+Inductive certtype := TSsh | TX509 | TKube | TBogus.   (* form field "type"; absent = ssh *)
 
 Record certreq := {
-  q_req : request;
-  q_target : N;              (* user named in the URL *)
-  q_post : bool;
+  q_method : hmethod;
+  q_origin : origin;
+  q_tls : option tlsinfo;
+  q_cred : cred;
+  q_target : bs;               (* r.URL.Path[len(certgenPath):], raw *)
   q_type : certtype;
-  q_form_ok : bool;          (* multipart form, duration and key all well formed and strong *)
-}.
+  q_form_ok : bool;            (* multipart body parses; duration absent or parses into (0, 24h] (C03) *)
+  q_key : option (N * bool);   (* Some (k, ed25519): pubkeyfile present, well formed for the requested
+                                  type and strong enough (C10); k identifies the submitted key *)
+  q_add_groups : bool }.       (* form field addGroups = "true" *)
 
-Inductive outcome := Issued (user : N) (t : certtype) | Refused (code : N).
+Definition auth_request (q : certreq) : request :=
+  {| r_get := match q_method q with HGet => true | _ => false end;
+     r_origin := q_origin q; r_tls := q_tls q; r_cred := q_cred q |}.
 
-Definition certgen (sealed : bool) (cfg : list method) (now : Z) (limiter_ok : bool) (q : certreq) : outcome :=
-  if sealed then Refused 500 else
-  match check_auth now limiter_ok bAny (q_req q) with
-  | Refuse c => Refused c
-  | Admit u level _ =>
-      if negb (sufficient cfg level) then Refused 401
-      else if negb (u =? q_target q) then Refused 403
-      else if negb (q_post q) then Refused 405
-      else if negb (q_form_ok q) then Refused 400
-      else match q_type q with
-           | TBogus => Refused 400
-           | t => Issued u t
+(* ---- server state as far as the handler reads it *)
+Record server := {
+  s_sealed : bool;                       (* state.Signer == nil *)
+  s_cfg : list bs;                       (* Config.Base.AllowedAuthBackendsForCerts *)
+  s_name : N -> bs;                      (* the name a subject number stands for *)
+  s_host : bs;                           (* HostIdentity *)
+  s_ed25519_ca : bool;                   (* state.Ed25519Signer != nil *)
+  s_templates : list (bs * bs);          (* Config.Base.SSHCertConfig.Extensions *)
+  s_realm : option bs;                   (* state.KerberosRealm *)
+  s_groups : bs -> option (list bs);     (* getUserGroups; None = the lookup failed *)
+  s_methods : bs -> option (list bs) }.  (* getServiceMethods *)
+
+(* ---- what lib/certgen puts into a certificate (the fields C02 names) *)
+Inductive cakey := CAMain | CAEd25519.
+Inductive eku := EkuClientAuth | EkuPkinitClient.
+Record certdesc := {
+  d_ssh : bool;                 (* SSH certificate (else X.509) *)
+  d_names : list bs;            (* ValidPrincipals / the subject common name *)
+  d_keyid : bs;                 (* SSH KeyId *)
+  d_key : N;                    (* the certified public key *)
+  d_user_type : bool;           (* SSH: CertType = UserCert; X.509: BasicConstraintsValid *)
+  d_is_ca : bool;
+  d_ekus : list eku;
+  d_exts : list (bs * bs);      (* SSH Permissions.Extensions, a map *)
+  d_signer : cakey;
+  d_orgs : list bs;
+  d_groups : list bs;           (* group-list extension *)
+  d_methods : list bs;          (* service-method extension *)
+  d_krb : option (bs * bs) }.   (* PKINIT SAN: (realm, principal) *)
+
+Inductive outcome := Issued (user : N) (c : certdesc) | Refused (code : N).
+
+(* ---- association lists standing for Go maps *)
+Fixpoint lookup (m : list (bs * bs)) (k : bs) : option bs :=
+  match m with
+  | [] => None
+  | (k', v) :: r => if bs_eqb k' k then Some v else lookup r k
+  end.
+Fixpoint map_set (m : list (bs * bs)) (k v : bs) : list (bs * bs) :=
+  match m with
+  | [] => [(k, v)]
+  | (k', v') :: r => if bs_eqb k' k then (k, v) :: r else (k', v') :: map_set r k v
+  end.
+
+Definition e_x11 : bs := [112;101;114;109;105;116;45;88;49;49;45;102;111;114;119;97;114;100;105;110;103].   (* "permit-X11-forwarding" *)
+Definition e_agent : bs := [112;101;114;109;105;116;45;97;103;101;110;116;45;102;111;114;119;97;114;100;105;110;103].   (* "permit-agent-forwarding" *)
+Definition e_port : bs := [112;101;114;109;105;116;45;112;111;114;116;45;102;111;114;119;97;114;100;105;110;103].   (* "permit-port-forwarding" *)
+Definition e_pty : bs := [112;101;114;109;105;116;45;112;116;121].   (* "permit-pty" *)
+Definition e_rc : bs := [112;101;114;109;105;116;45;117;115;101;114;45;114;99].   (* "permit-user-rc" *)
+Definition std5 : list bs := [e_x11; e_agent; e_port; e_pty; e_rc].
+Definition s_keymaster : bs := [107;101;121;109;97;115;116;101;114].   (* "keymaster" *)
+
+Section Expand.
+(* mvdan.cc/sh shell.Expand with the mapper USERNAME -> user, everything else -> "":
+   expand template user = Some text, or None when the expansion reports an error *)
+Variable expand : bs -> bs -> option bs.
+
+(* expandSSHExtensions: userExtensions[key] = value for every configured pair, in order;
+   the first expansion error aborts *)
+Fixpoint expand_extensions (tpl : list (bs * bs)) (user : bs) (m : list (bs * bs)) : option (list (bs * bs)) :=
+  match tpl with
+  | [] => Some m
+  | (k, v) :: r =>
+      match expand k user with
+      | None => None
+      | Some k' => match expand v user with
+                   | None => None
+                   | Some v' => expand_extensions r user (map_set m k' v')
+                   end
+      end
+  end.
+
+(* GenSSHCertFileString: the five standard extensions, then every custom pair whose key is
+   not empty (Go iterates the map; the keys of a map are distinct, so the order is immaterial) *)
+Definition ssh_extensions (custom : list (bs * bs)) : list (bs * bs) :=
+  fold_left (fun m kv => match fst kv with [] => m | _ => map_set m (fst kv) (snd kv) end) custom
+            (map (fun k => (k, [])) std5).
+
+Definition ssh_cert (st : server) (u : N) (user : bs) (q : certreq) : outcome :=
+  match q_key q with
+  | None => Refused 400
+  | Some (k, ed) =>
+      if ed && negb (s_ed25519_ca st) then Refused 422
+      else match expand_extensions (s_templates st) user [] with
+           | None => Refused 500
+           | Some custom =>
+               Issued u {| d_ssh := true; d_names := [user]; d_keyid := s_host st ++ [95] ++ user;
+                           d_key := k; d_user_type := true; d_is_ca := false; d_ekus := [];
+                           d_exts := ssh_extensions custom;
+                           d_signer := if ed then CAEd25519 else CAMain;
+                           d_orgs := []; d_groups := []; d_methods := []; d_krb := None |}
            end
   end.
 
-(* specification: the operator-required authentication *)
-Definition second_factor_bit (m : method) : option N :=
-  match m with
-  | MU2F => Some bU2F | MTOTP => Some bTOTP | MVIP => Some bVIP | MIPCert => Some bIPCert
-  | MOkta => Some bOkta | MCLI => Some bCLI | _ => None
+Definition x509_cert (st : server) (u : N) (user : bs) (q : certreq) (kube : bool) : outcome :=
+  match (if kube || q_add_groups q then s_groups st user else Some []) with
+  | None => Refused 500
+  | Some user_groups =>
+      match s_methods st user with
+      | None => Refused 500
+      | Some methods =>
+          match q_key q with
+          | None => Refused 400
+          | Some (k, _) =>
+              Issued u {| d_ssh := false; d_names := [user]; d_keyid := [];
+                          d_key := k; d_user_type := true; d_is_ca := false;
+                          d_ekus := [EkuClientAuth; EkuPkinitClient];
+                          d_exts := [];
+                          d_signer := CAMain;   (* getSignerX509CAForPublic: always the primary signer *)
+                          d_orgs := if kube then user_groups else [s_keymaster];
+                          d_groups := if q_add_groups q then user_groups else [];
+                          d_methods := methods;
+                          d_krb := match s_realm st with Some r => Some (r, user) | None => None end |}
+          end
+      end
   end.
-Definition qualifies (cfg : list method) (level : N) : Prop :=
-  hasb level bU2F = true \/ In MPassword cfg \/
-  exists m b, In m cfg /\ second_factor_bit m = Some b /\ hasb level b = true.
 
-(* decoding of harness cases *)
-Definition method_of_index (i : N) : method :=
-  if i =? 0 then MPassword else if i =? 1 then MFederated else if i =? 2 then MU2F
-  else if i =? 3 then MVIP else if i =? 4 then MIPCert else if i =? 5 then MTOTP
-  else if i =? 6 then MOkta else if i =? 7 then MBootstrap else if i =? 8 then MCLI else MUnknown.
-Fixpoint cfg_of_mask_from (n : nat) (i : N) (mask : N) : list method :=
-  match n with
-  | O => []
-  | S n' => (if N.testbit mask i then [method_of_index i] else []) ++ cfg_of_mask_from n' (i + 1) mask
+(* certGenHandler, in source order *)
+Definition certgen (st : server) (now : Z) (limiter_ok : bool) (q : certreq) : outcome :=
+  if s_sealed st then Refused 500 else
+  match check_auth now limiter_ok bAny (auth_request q) with
+  | Refuse c => Refused c
+  | Admit u level _ =>
+      if negb (sufficient (s_cfg st) level) then Refused 401
+      else
+        let user := s_name st u in
+        if negb (bs_eqb user (q_target q)) then Refused 403
+        else match q_method q with
+             | HPost =>
+                 if negb (q_form_ok q) then Refused 400
+                 else match q_type q with
+                      | TSsh => ssh_cert st u user q
+                      | TX509 => x509_cert st u user q false
+                      | TKube => x509_cert st u user q true
+                      | TBogus => Refused 400
+                      end
+             | _ => Refused 405
+             end
   end.
-Definition cfg_of_mask (mask : N) : list method := cfg_of_mask_from 10 0 mask.
+End Expand.
+
+(* ---- the handler BEFORE the two repairs of this check (kept for the refutation witnesses):
+   (1) checkAuth returned the url.Parse error of the Origin/Referer header without writing a
+       response: the client saw an empty 200 (code 0 here = nothing written);
+   (2) writeFailureResponse rendered the second-factor page for HTML clients holding a valid
+       password or federated session without writing the 401 status (so: 200). *)
+Definition old_status (html : bool) (now : Z) (q : certreq) (code : N) : N :=
+  if (code =? 401) && html then
+    match q_cred q with
+    | Cookie t =>
+        if token_ok now t && negb (t_exp t <? now)%Z &&
+           (hasb (t_level t) bPassword || hasb (t_level t) bFederated) then 200 else code
+    | _ => code
+    end
+  else code.
+
+Definition certgen_old (expand : bs -> bs -> option bs) (html : bool) (st : server) (now : Z)
+                       (limiter_ok : bool) (q : certreq) : outcome :=
+  let bad_origin := match q_method q, q_origin q with
+                    | HGet, _ => false
+                    | _, BadOrigin => true
+                    | _, _ => false
+                    end in
+  if negb (s_sealed st) && bad_origin then Refused 0
+  else match certgen expand st now limiter_ok q with
+       | Refused c => Refused (old_status html now q c)
+       | r => r
+       end.
+
+(* lib/certgen before its repair: the two GeneralString tags of the PKINIT name were patched at
+   fixed offsets, right only while the whole value is shorter than 128 bytes, i.e. while
+   len(realm) + len(user) < 97; beyond that the extension no longer decodes *)
+Definition krb_san_old (realm user : bs) : option (bs * bs) :=
+  if N.of_nat (length realm + length user) <? 97 then Some (realm, user) else None.
+
+(* what the server publishes under /public/sshca and /public/x509ca *)
+Definition published (st : server) : list cakey :=
+  CAMain :: (if s_ed25519_ca st then [CAEd25519] else []).
+
+(* ---- user-name normalisation (app.go reprocessUsername) and the two places that mint a
+   password credential from a submitted name (loginHandler, checkAuth's basic-auth branch) *)
+Definition lower_byte (c : N) : N := if (65 <=? c) && (c <=? 90) then c + 32 else c.
+Section Normalise.
+Variable okta_filter : option (bs -> bs).     (* oktaUsernameFilterRE.ReplaceAll(.., nil), when configured *)
+Definition normalise (disable_normalisation : bool) (name : bs) : bs :=
+  let name := if disable_normalisation then name else map lower_byte name in
+  match okta_filter with Some f => f name | None => name end.
+End Normalise.
